@@ -71,48 +71,47 @@ theorem custom_ServiceConfig_unnamed (fmt : Fmt) (fs : List (String × Val)) (h 
     show some (Sum.inr ("ServiceConfig", Val.map (setField "Name" (.str "") fs))) = _
     rw [setField_same "Name" (.str "") fs h]
 
-/-- `BuildConfig` (both renderings), `ServiceConfig` and the services mapping (YAML: the JSON rendering skips `Name`, which
-    is outside `plainB`) are in scope once `env_file` / `ssh` are admitted as value-less leaves -/
+/-- `BuildConfig`, `ServiceConfig` and the services mapping are in scope, both renderings, once `env_file` / `ssh` are
+    admitted as value-less leaves (JSON skips `ServiceConfig.Name` — `json:"-"` — which `plainB` admits as "left out") -/
 theorem plain_service_and_build :
-    (GenericF.plainB genEnv .yaml leavesNoEnvSSH.names 16 (.named "BuildConfig") &&
-     GenericF.plainB genEnv .json leavesNoEnvSSH.names 16 (.named "BuildConfig") &&
-     GenericF.plainB genEnv .yaml leavesNoEnvSSH.names 16 (.named "ServiceConfig") &&
-     GenericF.plainB genEnv .yaml leavesNoEnvSSH.names 17 (.named "Services")) = true := by
+    ([Fmt.yaml, Fmt.json].all fun fmt =>
+      GenericF.plainB genEnv fmt leavesNoEnvSSH.names 16 (.named "BuildConfig") &&
+      GenericF.plainB genEnv fmt leavesNoEnvSSH.names 16 (.named "ServiceConfig") &&
+      GenericF.plainB genEnv fmt leavesNoEnvSSH.names 17 (.named "Services")) = true := by
   decide
+
+theorem plain_service_and_build_fmt (fmt : Fmt) :
+    GenericF.plainB genEnv fmt leavesNoEnvSSH.names 16 (.named "BuildConfig") = true ∧
+    GenericF.plainB genEnv fmt leavesNoEnvSSH.names 16 (.named "ServiceConfig") = true ∧
+    GenericF.plainB genEnv fmt leavesNoEnvSSH.names 17 (.named "Services") = true := by
+  have h := plain_service_and_build
+  simp only [List.all_cons, List.all_nil, Bool.and_true, Bool.and_eq_true] at h
+  cases fmt
+  · exact ⟨h.1.1.1, h.1.1.2, h.1.2⟩
+  · exact ⟨h.2.1.1, h.2.1.2, h.2.2⟩
 
 /-- **a build section reloads to itself**, both renderings — `_partial`: no `ssh` keys (they need `transform.Canonical`) -/
 theorem roundtrip_BuildConfig_partial (fmt : Fmt) (v : Val)
     (hs : GenericF.Stable genEnv fmt leavesNoEnvSSH 16 (.named "BuildConfig") v) :
-    ∃ t, encode genEnv fmt 16 (.named "BuildConfig") v = .ok t ∧ decode genEnv 16 (.named "BuildConfig") t = .ok v := by
-  have hp : GenericF.plainB genEnv fmt leavesNoEnvSSH.names 16 (.named "BuildConfig") = true := by
-    have := plain_service_and_build
-    simp only [Bool.and_eq_true] at this
-    cases fmt
-    · exact this.1.1.1
-    · exact this.1.1.2
-  exact generic_roundtrip_fmt genEnv fmt leavesNoEnvSSH (leavesNoEnvSSH_sound genEnv leafEnv_gen fmt) 16 _ v hp hs
+    ∃ t, encode genEnv fmt 16 (.named "BuildConfig") v = .ok t ∧ decode genEnv 16 (.named "BuildConfig") t = .ok v :=
+  generic_roundtrip_fmt genEnv fmt leavesNoEnvSSH (leavesNoEnvSSH_sound genEnv leafEnv_gen fmt) 16 _ v
+    (plain_service_and_build_fmt fmt).1 hs
 
-/-- **a service reloads to itself** through the YAML rendering and `loader.Transform` — `_partial`: a service as the
+/-- **a service reloads to itself** through either rendering and `loader.Transform` — `_partial`: a service as the
     decoder produces it (name not yet filled in from the key), without `env_file` and `build.ssh`; the full statement fails
     on `envfile_short_form_needs_canonical` / `service_name_cleared`; the stages that repair both are decided by the oracle -/
-theorem roundtrip_ServiceConfig_partial (v : Val)
-    (hs : GenericF.Stable genEnv .yaml leavesNoEnvSSH 16 (.named "ServiceConfig") v) :
-    ∃ t, encode genEnv .yaml 16 (.named "ServiceConfig") v = .ok t ∧ decode genEnv 16 (.named "ServiceConfig") t = .ok v := by
-  have hp : GenericF.plainB genEnv .yaml leavesNoEnvSSH.names 16 (.named "ServiceConfig") = true := by
-    have := plain_service_and_build
-    simp only [Bool.and_eq_true] at this
-    exact this.1.2
-  exact generic_roundtrip_fmt genEnv .yaml leavesNoEnvSSH (leavesNoEnvSSH_sound genEnv leafEnv_gen .yaml) 16 _ v hp hs
+theorem roundtrip_ServiceConfig_partial (fmt : Fmt) (v : Val)
+    (hs : GenericF.Stable genEnv fmt leavesNoEnvSSH 16 (.named "ServiceConfig") v) :
+    ∃ t, encode genEnv fmt 16 (.named "ServiceConfig") v = .ok t ∧ decode genEnv 16 (.named "ServiceConfig") t = .ok v :=
+  generic_roundtrip_fmt genEnv fmt leavesNoEnvSSH (leavesNoEnvSSH_sound genEnv leafEnv_gen fmt) 16 _ v
+    (plain_service_and_build_fmt fmt).2.1 hs
 
 /-- … and so does the whole `services` mapping -/
-theorem roundtrip_Services_partial (v : Val)
-    (hs : GenericF.Stable genEnv .yaml leavesNoEnvSSH 17 (.named "Services") v) :
-    ∃ t, encode genEnv .yaml 17 (.named "Services") v = .ok t ∧ decode genEnv 17 (.named "Services") t = .ok v := by
-  have hp : GenericF.plainB genEnv .yaml leavesNoEnvSSH.names 17 (.named "Services") = true := by
-    have := plain_service_and_build
-    simp only [Bool.and_eq_true] at this
-    exact this.2
-  exact generic_roundtrip_fmt genEnv .yaml leavesNoEnvSSH (leavesNoEnvSSH_sound genEnv leafEnv_gen .yaml) 17 _ v hp hs
+theorem roundtrip_Services_partial (fmt : Fmt) (v : Val)
+    (hs : GenericF.Stable genEnv fmt leavesNoEnvSSH 17 (.named "Services") v) :
+    ∃ t, encode genEnv fmt 17 (.named "Services") v = .ok t ∧ decode genEnv 17 (.named "Services") t = .ok v :=
+  generic_roundtrip_fmt genEnv fmt leavesNoEnvSSH (leavesNoEnvSSH_sound genEnv leafEnv_gen fmt) 17 _ v
+    (plain_service_and_build_fmt fmt).2.2 hs
 
 /-- the harness classifier (`Model/RoundTripScope.lean`, op `c09.rt`) measures the scope of exactly these leaves -/
 theorem classifier_leaves_match :
@@ -200,6 +199,6 @@ theorem minimalService_stable : GenericF.Stable genEnv .yaml leavesNoEnvSSH 16 (
 /-- the theorem applies: the minimal service reloads to itself -/
 example : ∃ t, encode genEnv .yaml 16 (.named "ServiceConfig") minimalService = .ok t ∧
     decode genEnv 16 (.named "ServiceConfig") t = .ok minimalService :=
-  roundtrip_ServiceConfig_partial minimalService minimalService_stable
+  roundtrip_ServiceConfig_partial .yaml minimalService minimalService_stable
 
 end CV.C09
